@@ -179,7 +179,7 @@ def assemble(template, fns, twins=False, repo=REPO):
                     done = True
                     if 'all' not in opts:
                         break
-            if not done:
+            if not done and 'optional' not in opts:
                 raise rustscan.ScanError(f'lost anchor: injection point /{rx}/ not found in {fn.label}')
         # loop contracts by ordinal
         loop_parts = {}
